@@ -33,8 +33,8 @@ ANCHORS = (
     "xgi/utils/utilities.py",
 )
 RULE = (
-    "case = one seeded public callable (round robin over the introspected list) x one parameter tuple (the C16 recipes, small regime in two rounds of three, "
-    "sparse / large regime in the third; inputs rebuilt from plain data for every call) x one seed (plain int / numpy integer / >= 2**32) x history-before (0-3 steps) x schedule-between (0-4 steps) over the alphabet {draw k from random, draw k from numpy.random, "
+    "case = one seeded public callable (round robin over the introspected list) x one parameter tuple (the C16 recipes; rounds cycle through the small, the options and the sparse / large regime; "
+    "a second case kind drives spectral_clustering on small symmetric hypergraphs x many seeds; inputs rebuilt from plain data for every call) x one seed (plain int / numpy integer / >= 2**32) x history-before (0-3 steps) x schedule-between (0-4 steps) over the alphabet {draw k from random, draw k from numpy.random, "
     "random.seed(x), numpy.random.seed(y), same callable with another seed / seed=None, same callable with other parameters, another seeded callable}; "
     "rounds 0-7 of every callable use the empty schedule and each single-step schedule. one evaluation = one comparison of the two outputs. "
     "distinct_nontrivial = distinct (callable, parameters, seed, schedule) whose output is non-empty"
@@ -43,6 +43,10 @@ ASSUMPTIONS = [
     "one interpreter process, PYTHONHASHSEED fixed; both executions get equal but separately built arguments (mutable arguments such as degree dicts are fresh copies)",
     "seeds: 0, small and large plain ints below 2**32 (80 %), numpy integers (10 %), ints of 2**32 and more (10 %); the last two classes may be refused by random.seed / "
     "numpy.random.seed / networkx (TypeError / ValueError): then both executions must refuse alike (counted as raised-both, not compared further)",
+    "options regime (every third round): networkx pass-through keyword arguments of the four spring layouts (pos for all / some nodes as tuples or arrays, fixed, iterations, "
+    "k, threshold, scale, center, dim 2/3, weight, method, gravity), center forms of random_layout, boundary probabilities 0 / 1 / 1.0 / numpy scalars, every existing order "
+    "for shuffle_hyperedges, order= given / array and tuple ps for the random hypergraphs (a tuple is refused by the argument check: both executions alike), flag complexes with "
+    "0 / 1 entries and ps None / [], rings that wrap for watts_strogatz, k >= 3 clusters with max_iter 1-50 on complete / cycle / star / two-clique / sunflower hypergraphs",
     "parameters are admissible; every third round of a callable uses the sparse / large regime (tiny probabilities 1e-18 .. 1e-3 with n up to 500 so that a handful of edges "
     "is expected, degree-type parametrisations, probabilities as numpy scalars / arrays / Python ints, 300-6000 node Chung-Lu / DCSBM sequences, layouts on 40-510 nodes)",
     "the classes of the argument of `geometric` that were drawn with are counted by a pass-through wrapper around the name in the generator modules (harness side)",
@@ -896,7 +900,7 @@ def sched_key(steps):
 # ---------------------------------------------------------------------------------
 # protocol
 # ---------------------------------------------------------------------------------
-ROUNDS = {"quick": 120, "thorough": 18000}
+ROUNDS = {"quick": 120, "thorough": 15000}
 
 
 SYMMETRIC = {"quick": 800, "thorough": 40000}
@@ -915,13 +919,20 @@ def plan(tier):
 
 def floors(tier):
     rounds = ROUNDS[tier]
-    f = {f"compared:{short_name(q)}": int(0.6 * rounds) for q in PROBED}
+    f = {f"compared:{short_name(q)}": int(0.3 * rounds) for q in PROBED}
     for q in PROBED:
         n = short_name(q)
         if n in SPARSE:
-            f[f"compared-sparse:{n}"] = int(0.18 * rounds)  # a third of the rounds are sparse / large; some seeds are refused
+            f[f"compared-sparse:{n}"] = int(0.09 * rounds)  # a third of the rounds are sparse / large; some seeds are refused
         if n in SKIP_SAMPLERS:
-            f[f"sparse-nonempty:{n}"] = int(0.15 * rounds)
+            f[f"sparse-nonempty:{n}"] = int(0.1 * rounds)
+        if n in OPTIONS:
+            f[f"compared-options:{n}"] = int(0.09 * rounds)
+        if n in LAYOUTS_WITH_PASSTHROUGH:
+            f[f"compared-with-pos:{n}"] = int(0.06 * rounds)  # initial positions passed through to networkx
+            f[f"compared-with-fixed:{n}"] = int(0.02 * rounds)
+    if SPECTRAL in SEEDED:
+        f["compared-symmetric-spectra"] = int(0.4 * SYMMETRIC[tier])
     for c in ("plain", "numpy-integer", "above-2**32"):
         f[f"compared-seed-class:{c}"] = len(PROBED)
     if c16.PROBED_GEOMETRIC:
